@@ -47,8 +47,9 @@ CLAIMED.update({
            'ListOffsetArray64::reduce_next wired kernel-by-kernel with the buffer sizes the C++ allocates, against a per-(group, depth) fold oracle. C++ method level: ListOffsetArray64::reduce_next (reduction below the list level) from its IR: the content receives '
            'exactly the covered elements, parents[k] = list of element k, starts[i] = position of list i in what is handed over; results come back one per list; IndexedOptionArray64::reduce_next at the leaf level; '
            'Content::reduce axis normalisation (any axis, any depth, branching or not); every Reducer*::apply_<dtype> of Reducer.cpp (10 reducers x bool, 8 integer types, float32/64, datetime/timedelta for order reducers) from its IR '
-           'together with the dispatched kernel on symbolic data with a concrete group assignment including an empty group: documented output type, fold from the identity, a member that no member beats, first such position, -1 / identity for an empty group.',
-           'Outside: keepdims/mask_identity wrapping, record/union nodes, axis=None, complex types, NaN ordering, explicit `initial=`; prod of floats for groups of more than 2. '
+           'together with the dispatched kernel on symbolic data with a concrete group assignment including an empty group: documented output type, fold from the identity, a member that no member beats, first such position, -1 / identity for an empty group; '
+           'NumpyArray::reduce_next (the leaf of every reduction) for all reducers: answer labelled with the documented dtype and item size, positions reported relative to the list (minus starts, plus shifts), mask_identity = None exactly for empty groups, keepdims = a regular dimension of size 1.',
+           'Outside: record/union nodes, axis=None, complex types, NaN ordering, explicit `initial=`; prod of floats for groups of more than 2. '
            'Bounds: <= 3/4 elements, <= 2/3 groups, non-local lists <= 3 of length <= 2/3 (lengths case-split), products with the group assignment case-split.',
            'DESIGN.md sections 3 (C03) and 9.5', 'SMT bounded model checking of kernel and C++ method LLVM IR (llbmc + z3; node-method harness with an opaque content) against independent oracles; native replay (ASan kernels, whole-library akrun)'),
  'C04': mc('Narrow claim: the three list re-alignment kernels behind broadcasting - equal lengths align element for element, unequal lengths '
